@@ -16,6 +16,11 @@ def parse_int_text(text, base):
     """int(text, base) for text that contains a number token."""
     m = _TOKRE.match(text)
     if m is None:
+        rest = re.sub(TOK + r"\d+\|[^%s]*%s" % (TOK, TOK), "", text)
+        if re.search(r"[^0-9a-fA-FxXoObB_+\-\s]", rest) or rest.strip().count("+") + rest.strip().count("-") > 1 \
+                or re.search(r"[+\-]\s*$", rest.strip()) and rest.strip() not in ("+", "-"):
+            # characters around the number that no integer literal can contain
+            raise ValueError("invalid literal for int() with base %r: %r" % (base, text))
         raise Unsupported("int() of text mixing a number token with other characters: %r" % text)
     sign, prefix, tid, spec = m.groups()
     c = S.ctx
